@@ -48,11 +48,11 @@ CLAIMED = {
              "Compilability of schemas outside the corpus beyond the rule families is not decided.",
              "template lint + def-use taint on AST facts, compile witnesses"),
     "C08": E("other", "Each of the 65 throw sites is dominated by exactly its hand-confirmed guard (strictness included); traversal "
-             "reaches every position; memo caches belong to one validator (G-CACHE); required-rule table (G-REQ: known gaps D13/D15/D17); classifying predicates scan their whole argument (G-SCAN); exit status mapping; the 24 valid boundary schemas are accepted.", "DESIGN.md 3/C08",
+             "reaches every position; memo caches belong to one validator (G-CACHE); required-rule table (G-REQ: known gaps D13/D15/D17); classifying predicates scan their whole argument (G-SCAN); the type table is written only by the duplicate-reporting adder (G-UNIQ); exit status mapping; the 24 valid boundary schemas are accepted.", "DESIGN.md 3/C08",
              "Acceptance of every rule-abiding schema in general is not decided.",
              "structural dominance + normalised guard table (G-GUARD), call-graph requirements (G-CALL), cache-exclusivity shape rule (G-CACHE)"),
     "C09": E("other", "Every enumerated hazard call site has a dominating guard or a recorded invariant linked to a live validator "
-             "check or to a value-exclusion rule on the helper that establishes it; format strings are literals with bound fields; main covers std::exception; include recursion rule.", "DESIGN.md 3/C09", "UB in general, pugixml internals, memory exhaustion, other hang shapes not decided.",
+             "check, to a value-exclusion rule on the helper that establishes it or to the dispatch of its callers; context_manager::get inside the validator is a hazard site; the offset guards the generator re-checks are evaluated as linked instances; format strings are literals with bound fields; main covers std::exception; include recursion rule.", "DESIGN.md 3/C09", "UB in general, pugixml internals, memory exhaustion, other hang shapes not decided.",
              "hazard enumeration with resolved callees + guard-or-invariant rule (G-HAZ), template lint (G-TPL), cache-exclusivity shape rule (G-CACHE)"),
     "C10": E("other", "On every path of every public operation each buffer access is preceded by an asserted bound that covers exactly "
              "the accessed bytes on the accessed base (R-CHK); a data-dependent move of a view's own ptr is covered by an asserted ptr' <= end (R-CHK.step); every view handed out inherits the end pointer of the view it was derived from (R-CHK.derive); the validator guard that keeps array elements one byte wide is a linked instance; configuration truth table of SBEPP_SIZE_CHECKS_ENABLED.",
@@ -67,13 +67,13 @@ CLAIMED = {
              TB, "spec rows over E2 summaries + interval arithmetic (R-INT)"),
     "C13": E("other", "Only per-operation clauses are decided (the vector-model equivalence over operation sequences is a property of "
              "histories, not applicable to this family): exact write footprint, new length, returned iterator and precondition "
-             "strictness of every <data> mutator for all length types / byte orders / element types of the corpus; single-pass ranges are traversed once; linked validator guard (one-byte elements).",
+             "strictness of every <data> mutator for all length types / byte orders / element types of the corpus; single-pass ranges are traversed once; value parameters are not read after shifting (ARR.alias); linked validator guard (one-byte elements).",
              "DESIGN.md 3/C13", TB + "Sequences of operations are not explored.", "spec rows over path-sensitive affine/effect summaries (E2)"),
     "C14": E("other", "Exact write footprints, padding per eos mode, returned iterators, precondition strictness, strlen/strlen_r scan "
-             "ranges for every array length of the corpus (incl. 0 and 1); single-pass ranges are traversed once.", "DESIGN.md 3/C14",
+             "ranges for every array length of the corpus (incl. 0 and 1); single-pass ranges are traversed once; no unbounded scan of the array's own storage in any arm, sized arguments keep their size (ARR.bounded).", "DESIGN.md 3/C14",
              TB + "Contents for all inputs follow from the trusted std-algorithm summaries.", "spec rows over E2 summaries"),
     "C15": E("other", "Shift rule (operand at least as wide as T, unsigned at T's width), mask algebra rows of get_bit/set_bit, "
-             "generated choice accessors pass the XML index.", "DESIGN.md 3/C15", TB, "R-INT shift rule + E2 mask rows + E4"),
+             "generated choice accessors pass the XML index; visit_set reports each choice through its own getter.", "DESIGN.md 3/C15", TB, "R-INT shift rule + E2 mask rows + E4"),
     "C16": E("other", "Generator default min/max/null tables equal the library constants (compile witnesses over constants); "
              "comparison operators as truth tables over the skeleton atoms; NaN-null rule; value()/value_or rows.", "DESIGN.md 3/C16",
              "Results on concrete value pairs beyond the truth tables are not decided.",
@@ -85,11 +85,11 @@ CLAIMED = {
              "round trips by type-level witnesses; actual-presence rules per kind of encoding (value exclusion) and the declared-presence who-may-read rule; free text reaches literals through an exact escaper; min/max/null limits equal the XML attribute or the SBE default (generated code and generator tables).", "DESIGN.md 3/C18", "Scope: build set + corpus schemas.",
              "AST extraction of trait specialisations vs independent XML model + static_assert witnesses"),
     "C19": E("translation_validation", "Generated visit_children bodies are ||-chains of exactly the members in schema order with own "
-             "accessor and tag; enum/set visits; library early-stop loop; by-tag forwarding; which members are visited follows actual_presence in every generator (G-FLOW.f, G-PRES).", "DESIGN.md 3/C19",
+             "accessor and tag; enum/set visits; library early-stop loop; by-tag forwarding; which members are visited follows actual_presence in every generator (G-FLOW.f, G-PRES); by-tag accessors take their arguments by forwarding reference (E4.bytag).", "DESIGN.md 3/C19",
              "Event logs on concrete messages for every stopping point are not explored (short-circuit || is the language's).",
              "AST structure rules on generated code vs XML model"),
     "C20": E("other", "Must-check rules on fs_provider (open test, flush/close, state test with throwing arm), who-may-touch-disk, "
-             "every error_code is tested before it is reused (G-IO.ec), exit status mapping, determinism rules (API, pointer-keyed iteration, address-dependent values, never-assigned members of default-initialised parse structs).", "DESIGN.md 3/C20",
+             "every error_code is tested before it is reused (G-IO.ec), counting writes use their result, exit status mapping, determinism rules (API, pointer-keyed iteration, address-dependent values, never-assigned members of default-initialised parse structs).", "DESIGN.md 3/C20",
              "Individual failing syscalls and byte identity of real runs are not decided.",
              "must-check / who-may-call rules on resolved call sites"),
 }
